@@ -189,30 +189,52 @@ def run_case(rng, GroupBy, viol_out, res):
                     if not np.allclose(np.where(m, fv.to_numpy(dtype=float), 0), np.where(m, pv.to_numpy(dtype=float), 0), equal_nan=True):
                         fail("facade-vs-pandas", fv.to_numpy().tolist(), pv.to_numpy().tolist())
         elif family == "roll":
-            f = getattr(fgb.rolling(2, min_periods=1), method)()
-            c = getattr(core, "rolling_" + method)(values, 2, min_periods=1)
-            ok, why = same_frame(f, c)
-            if not ok:
-                fail("facade-vs-core", why, "equal")
+            # every way of giving the parameters: window 1-3, min_periods omitted (= the window, as in pandas), 0, 1 .. window
+            w = rng.choice([1, 2, 2, 3])
+            mp = rng.choice([None, 0, 1, w])
+            # C17 asks the facade for what the core returns: where the core itself refuses a parameter combination (the mean of an
+            # empty window with min_periods=0 divides by zero in the kernel - outside C09's min_periods 1..window, see DESIGN) the
+            # facade must refuse it the same way, not return something of its own
+            try:
+                c = getattr(core, "rolling_" + method)(values, w, min_periods=w if mp is None else mp)
+                core_exc = None
+            except Exception as e:  # noqa: BLE001
+                c, core_exc = None, type(e).__name__
+            if core_exc is not None:
+                try:
+                    getattr(fgb.rolling(w) if mp is None else fgb.rolling(w, min_periods=mp), method)()
+                    fail("facade-vs-core", "the facade returned a result", f"the core raises {core_exc} (window={w}, min_periods={mp})")
+                except Exception as e:  # noqa: BLE001
+                    if type(e).__name__ != core_exc:
+                        fail("facade-vs-core", f"the facade raises {type(e).__name__}", f"the core raises {core_exc} (window={w}, min_periods={mp})")
+                res.count("core_refuses", f"rolling_{method} min_periods={mp}: {core_exc}")
+            else:
+                f = getattr(fgb.rolling(w) if mp is None else fgb.rolling(w, min_periods=mp), method)()
+                ok, why = same_frame(f, c)
+                if not ok:
+                    fail("facade-vs-core", why, f"equal (window={w}, min_periods={mp})")
         else:
             if method in ("head", "tail"):
-                f = getattr(fgb, method)(1)
-                c = getattr(core, method)(values, 1)
+                n = rng.choice([0, 1, 1, 2, 3])
+                f = getattr(fgb, method)(n)
+                c = getattr(core, method)(values, n)
                 ok, why = same_frame(f, c)
                 if not ok:
-                    fail("facade-vs-core", why, "equal")
+                    fail("facade-vs-core", why, f"equal (n={n})")
             elif method == "nth":
-                f = fgb.nth(0)
-                c = core.nth(values, 0)
+                n = rng.choice([0, 0, 1, -1, 2, -2])
+                f = fgb.nth(n)
+                c = core.nth(values, n)
                 ok, why = same_frame(f, c)
                 if not ok:
-                    fail("facade-vs-core", why, "equal")
+                    fail("facade-vs-core", why, f"equal (n={n})")
             elif method == "ema":
-                f = fgb.ema(alpha=0.5)
-                c = core.ema(values, alpha=0.5)
+                kw = rng.choice([dict(alpha=0.5), dict(alpha=0.25), dict(alpha=1.0), dict(halflife=2.0)])
+                f = fgb.ema(**kw)
+                c = core.ema(values, **kw)
                 ok, why = same_frame(f, c)
                 if not ok:
-                    fail("facade-vs-core", why, "equal")
+                    fail("facade-vs-core", why, f"equal ({kw})")
             elif method == "agg_sum_masked":
                 m = np.array([rng.random() < 0.6 for _ in range(len(df))], dtype=bool)
                 f = fgb.agg("sum", mask=m)
